@@ -508,7 +508,8 @@ class ParameterCollection(metaclass=_ParameterCollectionType):
             if isinstance(retainedValue, np.ndarray) or isinstance(
                 currentValue, np.ndarray
             ):
-                if (retainedValue != currentValue).any():
+                # (array_equal: the kept value may have another shape than the restored one)
+                if not np.array_equal(retainedValue, currentValue):
                     setattr(self, pd.fieldName, currentValue)
                     pd.assigned = SINCE_ANYTHING
                     self.assigned = SINCE_ANYTHING
